@@ -25,6 +25,7 @@ structure St where
   ct : ChanType := {}
   csv : Array Nat := #[5, 4]
   thaw : Nat := 0
+  initA : Bool := true
   w : Weights := {}
   sweepHeight : Nat := 800000
   lines : Nat := 0
@@ -97,13 +98,21 @@ def handleSpend (s : St) (ws : List String) : IO St := do
   let some script0 := parseScript (kvS ws "ws") | mismatch s s!"unparsed script {kvS ws "ws"}"
   let some k := spendOf kind | mismatch s s!"unknown kind {kind}"
   let me := nodeOf (ctxField ctxS "x")
-  let c : Close := { ct := s.ct, me := me, initiator := me == 0, csv := s.csv[me]!,
+  let c : Close := { ct := s.ct, me := me, initiator := (me == 0) == s.initA, csv := s.csv[me]!,
                      leaseExpiry := s.thaw, height := s.sweepHeight }
   let cltv := findCltv script0
   let ph := findPayHash script0
   let expiry := if k == .htlcTimeoutTx then lock else cltv
+  let agg := kind.endsWith "Agg"
+  -- the peer's second-level signature is pre-signed (fixed nLockTime / sequence)
+  let wit := if k == .htlcTimeoutTx || k == .htlcSuccessTx then
+      wit.map fun it => match it with
+        | .sig sk ht .final => if sk == c.remoteHtlcKey then .sig sk ht (c.peerSigOver k expiry) else it
+        | _ => it
+    else wit
   if spk == "p2tr" || s.ct.taproot then
-    let cx : Ctx := { version := ver, sequence := seq, lockTime := lock, tapscript := true }
+    let cx : Ctx := { version := ver, sequence := seq, lockTime := lock, tapscript := true,
+                      aggregated := agg }
     let mv := run cx script0 wit && kvS ws "pk" == "1"
     if mv != ev then
       s ← mismatch s s!"verdict(taproot) ctx={ctxS} kind={kind} var={variant} model={mv} engine={engine}"
@@ -114,20 +123,21 @@ def handleSpend (s : St) (ws : List String) : IO St := do
         if script0 != sc then
           s ← mismatch s s!"script(taproot) ctx={ctxS} kind={kind} impl={kvS ws "ws"} model={repr sc}"
       | none => s ← mismatch s s!"taproot spend path ctx={ctxS} kind={kind}: model expects the key path"
-      let mw := c.tapWitness k (.pre 0)
+      let mw := c.tapWitness k expiry (.pre 0)
       if wit != mw then
         s ← mismatch s s!"witness(taproot) ctx={ctxS} kind={kind} impl={kvS ws "wit"} model={repr mw}"
-      let mc := c.tapCtx k expiry
+      let mc := c.tapCtx k expiry agg
       if seq != mc.sequence || ver != mc.version || lock != mc.lockTime then
         s ← mismatch s s!"txshape ctx={ctxS} kind={kind} impl=ver{ver},seq{seq},lock{lock} model=ver{mc.version},seq{mc.sequence},lock{mc.lockTime}"
-      if c.tapValid k expiry ph (.pre 0) != ev then
-        s ← mismatch s s!"tapValid ctx={ctxS} kind={kind} model={c.tapValid k expiry ph (.pre 0)} engine={engine}"
+      if c.tapValid k expiry ph (.pre 0) agg != ev then
+        s ← mismatch s s!"tapValid ctx={ctxS} kind={kind} model={c.tapValid k expiry ph (.pre 0) agg} engine={engine}"
       s := { s with structChecked := s.structChecked + 1 }
     return s
   let modelScript := c.script k expiry ph
   let modelScriptF := c.script k expiry ph true
   let script := if spk == "p2wkh" then modelScript else script0
-  let cx : Ctx := { version := ver, sequence := seq, lockTime := lock, tapscript := false }
+  let cx : Ctx := { version := ver, sequence := seq, lockTime := lock, tapscript := false,
+                    aggregated := agg }
   let mv := run cx script wit && kvS ws "pk" == "1"
   if mv != ev then
     s ← mismatch s s!"verdict ctx={ctxS} kind={kind} var={variant} model={mv} engine={engine}"
@@ -136,14 +146,14 @@ def handleSpend (s : St) (ws : List String) : IO St := do
     let flip := script0 == modelScriptF && k == .funding
     if spk != "p2wkh" && script0 != modelScript && !flip then
       s ← mismatch s s!"script ctx={ctxS} kind={kind} impl={kvS ws "ws"} model={repr modelScript}"
-    let mw := c.witness k (.pre 0) flip
+    let mw := c.witness k expiry (.pre 0) flip
     if wit != mw then
       s ← mismatch s s!"witness ctx={ctxS} kind={kind} impl={kvS ws "wit"} model={repr mw}"
-    let mc := c.ctx k expiry
+    let mc := c.ctx k expiry agg
     if k != .funding then
       if seq != mc.sequence || ver != mc.version || lock != mc.lockTime then
         s ← mismatch s s!"txshape ctx={ctxS} kind={kind} impl=ver{ver},seq{seq},lock{lock} model=ver{mc.version},seq{mc.sequence},lock{mc.lockTime}"
-      let vv := c.valid k expiry ph (.pre 0)
+      let vv := c.valid k expiry ph (.pre 0) agg
       if vv != ev then
         s ← mismatch s s!"valid ctx={ctxS} kind={kind} model={vv} engine={engine}"
     s := { s with structChecked := s.structChecked + 1 }
@@ -172,6 +182,14 @@ def handleValue (s : St) (rest : List String) : IO St := do
   if kvN rest "distinct" != 1 then
     s ← monitor s "value-distinct" s!"ctx={ctxS} two resolutions claim the same output"
   let hs := kvS rest "htlcs"
+  let parsed := if hs == "-" then [] else (hs.splitOn ";").filterMap parseHtlc
+  -- the abstract commitment of the model (theorem `claimable_value`)
+  let cm : Commitment := { localCommit := localCommit, ownMsat := kvN rest "own_msat", feePerKw := fpk,
+                           dust := dust, htlcs := parsed.map fun (inc, amt, _, _) => ⟨inc, amt⟩ }
+  let claimedTotal : Int := Int.ofNat (kvN rest "claim_self") +
+    parsed.foldl (fun acc (_, _, _, cl) => if cl ≥ 0 then acc + cl else acc) 0
+  if claimedTotal != Int.ofNat (cm.claimable s.w s.ct) then
+    s ← monitor s "value-total" s!"ctx={ctxS} resolutions cover {claimedTotal} sat, expected {cm.claimable s.w s.ct} (due {cm.dueMsat} msat, loss bound {cm.lossBound s.w s.ct} sat)"
   if hs != "-" then
     for t in hs.splitOn ";" do
       match parseHtlc t with
@@ -209,7 +227,7 @@ def step (s : St) (line : String) : IO St := do
                                lease := b "lease", taproot := b "taproot",
                                taprootFinal := kvS rest "type" == "taprootfinal" },
                        csv := #[(kvNat? rest "csvA").getD 5, (kvNat? rest "csvB").getD 4],
-                       thaw := kvN rest "thaw", cases := s.cases + 1 }
+                       thaw := kvN rest "thaw", initA := kvS rest "initiator" != "B", cases := s.cases + 1 }
     if s.samples < 4 && id != "tmpl" then
       IO.println s!"SAMPLE {line}"
       return { s with samples := s.samples + 1 }
